@@ -104,7 +104,9 @@ func c06X25519Ops() []h.DiffOp {
 			}},
 		{Name: "keygen", Weight: 2,
 			Covers: []string{"GenerateKey", "GeneratePrivateKey"},
-			Gen:    func(t *rapid.T, c *h.DiffCase) { h.DiffEntropy(t, c, rapid.SampledFrom([]int{32, 64, 0, 1}).Draw(t, "n"), "rng") },
+			Gen: func(t *rapid.T, c *h.DiffCase) {
+				h.DiffEntropy(t, c, rapid.SampledFrom([]int{32, 64, 0, 1}).Draw(t, "n"), "rng")
+			},
 			Exec: func(a *h.DiffArgs, o *h.DiffOut) {
 				rnd := a.B()
 				priv, err := x25519.GeneratePrivateKey(h.NewDiffReader(rnd))
